@@ -2,6 +2,7 @@ import ActsModel.Spec.Hier
 import ActsModel.Spec.Lifecycle
 import ActsModel.Spec.Ref
 import ActsModel.Props.C01
+import ActsModel.Lemmas.Hier
 
 /-!
 # C03 — Hierarchical completion and exactly one terminal event per process
@@ -96,6 +97,61 @@ theorem monitor_rejects_second_start (st : HState) (i : Nat) (h : st.starts ≥ 
   simp only [hierStep, beq_self_eq_true, ↓reduceIte]
   have : st.starts + 1 > 1 := by omega
   simp [this]
+
+/-- **exactly one start event and one terminal event** (K3, every stream): a stream of observations that the monitor accepts contains at
+most one start event and at most one terminal event, and the terminal event has the start event before it -/
+theorem accepted_stream_events (evs : List HEv) (h : hierMonitor {} 0 evs = none) :
+    startCount evs ≤ 1 ∧ terminalCount evs ≤ 1 ∧
+    ∀ pre e post, evs = pre ++ e :: post → isTerminalEv e = true → startCount pre = 1 := by
+  have hb := hierMonitor_accepts_bounds evs {} 0 h (by decide) (by decide)
+  have h0 : ({} : HState).starts = 0 := rfl
+  have h1 : ({} : HState).terminals = 0 := rfl
+  rw [h0, h1] at hb
+  refine ⟨by omega, by omega, ?_⟩
+  intro pre e post heq hte
+  have ha := hierMonitor_terminal_after_start evs {} 0 h (by decide) (by decide) pre e post heq hte
+  rw [h0] at ha
+  have : startCount pre ≤ startCount evs := by
+    subst heq
+    simp only [startCount, List.filter_append, List.length_append]
+    omega
+  omega
+
+/-- **hierarchical completion** (K3, every stream): at every `completed` write of an accepted stream no task other than a hook act is open
+beneath the task that was written — on the monitor's state after exactly that prefix of the stream -/
+theorem accepted_completed_nothing_open (pre post : List HEv) (tid : Nat)
+    (h : hierMonitor {} 0 (pre ++ .tr tid .completed :: post) = none) :
+    openBeneath (hierRun {} 0 (pre ++ [.tr tid .completed])).tasks tid = none := by
+  obtain ⟨_, h2⟩ := hierMonitor_append pre {} 0 _ h
+  obtain ⟨h3, _⟩ := hierMonitor_none_cons _ _ _ _ h2
+  rw [hierRun_append]
+  simp only [hierRun]
+  exact hierStep_completed_pass _ _ _ h3
+
+/-- **the process state is the root's state, and nothing is open behind a non-error ending** (K3, every stream): at every quiescent
+point of an accepted stream the state the API shows for the process is the state of the root task (a root that has not left `none`
+belongs to a running process), and once a `complete` event has been delivered every task but lifecycle-hook acts is terminal -/
+theorem accepted_quiescent_point (pre post : List HEv) (ps : TaskState) (r : HTask)
+    (h : hierMonitor {} 0 (pre ++ .quiescent ps :: post) = none)
+    (hr : (hierRun {} 0 pre).tasks.find? (·.tid == 0) = some r) :
+    (r.state = ps ∨ (r.state = .none ∧ ps = .running)) ∧
+    (pre.any isCompleteEv = true → ∀ t ∈ (hierRun {} 0 pre).tasks, t.state.isCompleted = true ∨ t.hook = true) := by
+  obtain ⟨_, h2⟩ := hierMonitor_append pre {} 0 _ h
+  obtain ⟨h3, _⟩ := hierMonitor_none_cons _ _ _ _ h2
+  obtain ⟨a, b, _⟩ := hierStep_quiescent_pass _ _ ps r hr h3
+  refine ⟨a, fun hc => b ?_⟩
+  rw [hierRun_nonErrorEnd]
+  simp [hc]
+
+/-- non-vacuity of the two theorems above: an accepted stream with a start, a completed step over a completed act, and a terminal event -/
+example : hierMonitor {} 0 [.new ⟨0, "workflow", 0, none, .none, false⟩, .pev "start", .new ⟨1, "step", 1, some 0, .none, false⟩,
+    .new ⟨2, "act", 2, some 1, .none, false⟩, .tr 2 .completed, .tr 1 .completed, .tr 0 .completed, .pev "complete", .quiescent .completed] = none := by
+  decide
+
+/-- … and the monitor does reject the same stream when the act is still open at the step's `completed` write -/
+example : (hierMonitor {} 0 [.new ⟨0, "workflow", 0, none, .none, false⟩, .pev "start", .new ⟨1, "step", 1, some 0, .none, false⟩,
+    .new ⟨2, "act", 2, some 1, .none, false⟩, .tr 1 .completed]).isSome = true := by
+  decide
 
 /-- non-vacuity: a legal chained trace of a root task, and the count of its terminal entries -/
 example : terminalEntries [⟨"p:$", .none, .ready⟩, ⟨"p:$", .ready, .running⟩, ⟨"p:$", .running, .completed⟩] = 1 := by decide
